@@ -35,9 +35,9 @@ MIN_DISTINCT = {"quick": 40000, "thorough": 400000}
 ASSUMPTIONS = ["step counts (PY_START events) are the measure of time proportionality; wall-clock is never a verdict",
                "memory of the native decoder is observed through strace (mmap/mremap/brk) on a sample and through "
                "tracemalloc for the Python heap"]
-NSEEDS = {"quick": 112, "thorough": 3000}
+NSEEDS = {"quick": 98, "thorough": 3000}
 KREP = {"quick": 4, "thorough": len(Hx.REPRESENTATIVES)}
-CAP = {"quick": 36, "thorough": 1500}
+CAP = {"quick": 30, "thorough": 1500}
 A_LOCAL, B_LOCAL = 100, 20000           # local step budget: A*len + B   (measured max over 150 k inputs: 8.5*len)
 A_GLOBAL, B_GLOBAL = 2500, 200000       # guard-off global budget        (measured max: 111*len)
 GROWTH = 4.0                            # steps/byte at depth 64 may be at most 4x steps/byte at depth 2 (measured 1.8)
@@ -191,7 +191,8 @@ def seeds_for(rec, shard, nshards):
 def run_shard(rec, shard, nshards):
     _state["steps"] = steps.Steps(core.REPO)
     signal.signal(signal.SIGALRM, lambda *_: (_ for _ in ()).throw(CaseTimeout()))
-    rec.deadline = time.time() + CAP[rec.tier]
+    # shards 0-2 also run the guard-off ladder / allocation monitor / wide ladder afterwards: shorter mutation budget
+    rec.deadline = time.time() + CAP[rec.tier] - ((15 if rec.tier == "quick" else 120) if shard in (0, 1, 2) else 0)
     r = rec.rng("mut", shard)
     inflated_inputs = []
     seeds = seeds_for(rec, shard, nshards)
